@@ -161,12 +161,29 @@ theorem matching_invoked_fresh (hs : List (Handler V)) (c : Cause V) (now now1 :
     (by simp [C02.precheckFails])
   simpa using this
 
+/-- sub-handlers (finding C15-F8, repaired by /repo 17e5c42): in the pass over a sub-registry -- of a
+    deletion handler too, on an object marked for deletion -- a sub-handler (`field_needs_change` falsy)
+    whose declared criteria hold IS invoked (fresh object, all-at-once): no cause-kind condition at all -/
+theorem subhandler_matching_invoked_fresh (hs : List (Handler V)) (c : Cause V) (now now1 : C02.Tick)
+    (exec : C02.Id → Nat → C02.Outcome)
+    (hr : C02.handlerReasons.contains (reasonName c.kind.reason) = true)
+    (h : Handler V) (hmem : h ∈ hs) (hsub : IsSubHandler h) (hnf : h.fieldNeedsChange = false)
+    (hm : matchHandler h c = true) :
+    (h.id, 0) ∈ (C02.cycle (c02Cfg hs c (fun _ => ⟨none, none⟩) .allAtOnce []) (fun _ => none) now now1 exec).invoked :=
+  matching_invoked_fresh hs c now now1 exec hr h hmem (by rw [subhandler_gate h c hsub, hnf]; rfl) hm
+
+-- non-vacuity: the two sub-handlers of a deletion handler on a marked, labelled object are both invoked
+example :
+    let ex : C02.Id → Nat → C02.Outcome := fun _ _ => { final := true, delay := none, error := false, subrefs := [] }
+    (C02.cycle (c02Cfg [wSub 1 "del/a", wSub 2 "del/b" false (some [("lk", .present)])] (wDel (some "v"))
+        (fun _ => ⟨none, none⟩) .allAtOnce) (fun _ => none) 0 1 ex).invoked = [("del/a", 0), ("del/b", 0)] := by decide
+
 -- non-vacuity: an `on.create(labels={'lk': PRESENT})` handler on a fresh labelled object is invoked
 -- (retry 0), so the hypothesis of `invoked_sound` is met by a concrete pass; without the label the
 -- same pass invokes nothing
 example :
     let h : Handler J := { wH true .unset false .unset .unset (some [("lk", .present)]) with
-                           field := none, kind := ⟨some .create, false, false⟩ }
+                           field := none, kind := { reason := some .create, initial := false, deletedOptIn := false } }
     let ex : C02.Id → Nat → C02.Outcome := fun _ _ => { final := true, delay := none, error := false, subrefs := [] }
     (C02.cycle (c02Cfg [h] (wC true none none none (some "v")) (fun _ => ⟨none, none⟩) .allAtOnce)
         (fun _ => none) 0 1 ex).invoked = [("h", 0)] ∧
